@@ -713,7 +713,10 @@ impl Harness for PbH {
                 shape.push((size, h.is_some()));
             }
         }
-        fp128(&(self.cfg.slots, self.cfg.bytes, im.meta_read_at, im.meta_len, shape, im.pay_read_at, im.pay_len))
+        // slots that hold no packet keep whatever header their last occupant left behind
+        // (dequeue() takes it out, dequeue_with() does not): that residue is state
+        let residue: Vec<bool> = im.metas.iter().map(|m| m.1.is_some()).collect();
+        fp128(&(self.cfg.slots, self.cfg.bytes, im.meta_read_at, im.meta_len, shape, im.pay_read_at, im.pay_len, residue))
     }
     fn outcome(&self) -> String {
         format!("pk{}", self.q.len())
